@@ -7,6 +7,10 @@ use crate::{
 
 mod entry;
 mod iter;
+#[cfg(feature = "verif-hooks")]
+mod verif_hooks;
+#[cfg(feature = "verif-hooks")]
+pub use verif_hooks::VerifArena;
 
 pub use entry::*;
 pub use iter::*;
